@@ -56,7 +56,7 @@ var pureStdlib = map[string]string{
 	"html.EscapeString": "", "html.UnescapeString": "", "utf8.RuneCountInString": "0 <= result <= len(s)", "utf8.ValidString": "",
 	"math.Ceil": "", "math.Floor": "", "math.Round": "", "math.Abs": "", "math.Pow": "",
 	"rand.Intn": "requires n > 0; 0 <= result < n", "rand.Seed": "", "rand.Shuffle": "", "rand.New": "fresh generator, no effect on the program heap", "rand.NewSource": "fresh source",
-	"time.Now": "", "time.Time.UnixNano": "", "os.ReadFile": "fresh []byte or error", "filepath.Abs": "", "filepath.Join": "", "errors.Is": "",
+	"time.Now": "", "time.Time.UnixNano": "", "os.ReadFile": "fresh []byte or error", "filepath.Abs": "", "filepath.Clean": "", "filepath.Join": "", "errors.Is": "",
 	"reflect.TypeOf": "", "reflect.ValueOf": "", "reflect.DeepEqual": "",
 	"unicode.ToUpper": "", "unicode.IsSpace": "", "unicode.IsUpper": "", "unicode.ToLower": "",
 }
@@ -120,6 +120,27 @@ func (x *Exec) stdlibCall(st *State, fr *Frame, v *ssa.Call, f *ssa.Function, ar
 		pre("bytes.Buffer.Truncate.range", And(Ge(n, IntC(0)), Le(n, Slen(cur))), n, Slen(cur))
 		x.checkStore(st, fr, v, p)
 		x.storePtr(st, p, Ssub(cur, IntC(0), n))
+		return
+	case "fmt.Fprint", "fmt.Fprintf", "fmt.Fprintln":
+		use("writes to its writer only; no effect on the program heap")
+		freshRes()
+		return
+	case "filepath.Walk":
+		use("calls the callback for every entry under root in lexical order; only the callback's effects")
+		// effects of the callback: whatever its captured variables designate may change
+		if fv, ok := args[1].(*FuncV); ok {
+			for _, b := range x.ld.closureBindings[fv] {
+				if p, ok := b.(*PtrV); ok && p.Kind == PObj {
+					cur := x.loadPtr(st, p)
+					if mv, ok := cur.(*T); ok {
+						if _, isMap := p.Typ.Underlying().(*types.Map); isMap {
+							x.havocItem(st, ModItem{Kind: "mapc", Ref: mv, MapT: p.Typ})
+						}
+					}
+				}
+			}
+		}
+		freshRes()
 		return
 	case "sort.Strings":
 		use("permutes the elements of the slice in place (result order is canonical)")
@@ -314,7 +335,7 @@ var deterministicStdlib = map[string]bool{
 	"strings.TrimRight": true, "strings.TrimLeft": true, "strings.Trim": true, "strings.TrimSpace": true, "strings.HasPrefix": true, "strings.HasSuffix": true,
 	"strings.Index": true, "strings.TrimPrefix": true, "strings.TrimSuffix": true, "strings.Title": true,
 	"strconv.FormatInt": true, "strconv.Itoa": true, "strconv.FormatFloat": true, "html.EscapeString": true, "html.UnescapeString": true,
-	"math.Ceil": true, "math.Floor": true, "math.Round": true, "math.Abs": true, "utf8.ValidString": true,
+	"filepath.Abs": false, "math.Ceil": true, "math.Floor": true, "math.Round": true, "math.Abs": true, "utf8.ValidString": true,
 	"unicode.ToUpper": true, "unicode.IsSpace": true, "unicode.IsUpper": true, "unicode.ToLower": true,
 }
 
